@@ -12,6 +12,7 @@ import Driver.HufEnc
 import Driver.LitEnc
 import Driver.SeqEnc
 import Driver.DStream
+import Driver.Serialize
 
 def main (args : List String) : IO UInt32 := do
   match args with
@@ -29,4 +30,5 @@ def main (args : List String) : IO UInt32 := do
   | ["litenc"] => Driver.LitEnc.main; return 0
   | ["seqenc"] => Driver.SeqEnc.main; return 0
   | ["dstream"] => Driver.DStream.main; return 0
+  | ["serialize"] => Driver.Serialize.main; return 0
   | _ => IO.eprintln "usage: zvdriver <model>"; return 2
